@@ -23,8 +23,8 @@ static std::string g_mode;
 static void onAbort(const char* why) { L->ev(64, ks("ev", "hang") + "," + ks("why", why)); L->flush(); }
 static void onCrash(int sig) { L->ev(64, ks("ev", "crash") + "," + kv("sig", sig)); L->flush(); _exit(3); }
 
-struct MOp { int op; int a; int b; int d; }; // 0 addnode 1 rmnode 2 addedge 3 addmulti 4 rmedge 5 find 6 setdata 7 setnode
-static const char* OPN[] = {"addnode", "rmnode", "addedge", "addmulti", "rmedge", "find", "setdata", "setnode"};
+struct MOp { int op; int a; int b; int d; }; // 0 addnode 1 rmnode 2 addedge 3 addmulti 4 rmedge 5 find 6 setdata 7 setnode 8 incdata
+static const char* OPN[] = {"addnode", "rmnode", "addedge", "addmulti", "rmedge", "find", "setdata", "setnode", "incdata"};
 
 template <typename G, bool HasIn, bool Undirected>
 struct Driver {
@@ -48,6 +48,9 @@ struct Driver {
     case 4: { auto e = g.findEdge(node[o.a], node[o.b]); if (e == g.edge_end(node[o.a])) return {0}; g.removeEdge(node[o.a], e); return {1}; }
     case 5: { auto e = g.findEdge(node[o.a], node[o.b]); return {e == g.edge_end(node[o.a]) ? 0 : 1}; }
     case 6: { auto e = g.findEdge(node[o.a], node[o.b]); if (e == g.edge_end(node[o.a])) return {0}; g.getEdgeData(e) = o.d; return {1}; }
+    case 8: { // read-modify-write of the edge data under the locks findEdge took; the pause is a scheduling point
+              auto e = g.findEdge(node[o.a], node[o.b]); if (e == g.edge_end(node[o.a])) return {0};
+              long long v = g.getEdgeData(e); galois::substrate::asmPause(); g.getEdgeData(e) = (int)(v + 100); return {1, v + 100}; }
     default: { g.getData(node[o.a]) = o.d; return {1}; }
     }
   }
@@ -112,35 +115,40 @@ static std::string opJson(int t, const MOp& o, const VL& res) {
 }
 
 static bool g_selfloops = false;
+static int g_loopPolicy = 0;          // 0: no self loops at all, 1: every execution may contain self loops
+static std::string g_only = "all";   // run only this flavour
 static MOp randomOp(vh::Rng& r, int nn, int step) {
   MOp o;
-  int k = (int)r.below(20);
-  o.op = k < 3 ? 0 : k < 5 ? 1 : k < 10 ? 2 : k < 13 ? 3 : k < 16 ? 4 : k < 17 ? 5 : k < 19 ? 6 : 7;
+  int k = (int)r.below(24);
+  o.op = k < 3 ? 0 : k < 5 ? 1 : k < 10 ? 2 : k < 13 ? 3 : k < 16 ? 4 : k < 17 ? 5 : k < 19 ? 6 : k < 20 ? 7 : 8;
   o.a = (int)r.below(nn); o.b = (int)r.below(nn); o.d = step + 1;
-  if (!g_selfloops && o.op >= 2 && o.op <= 6 && o.a == o.b) o.b = (o.a + 1) % nn;   // self loops only in flagged executions
+  if (!g_selfloops && o.op >= 2 && o.op != 7 && o.a == o.b) o.b = (o.a + 1) % nn;   // self loops only in flagged executions
   // parallel edges only between designated pairs and with one constant datum, so that "remove / update
   // the edge a->b" has one outcome up to isomorphism (the trace specification stays deterministic)
   bool multiPair = ((o.a + 2 * o.b) % 3 == 0);
   if (o.op == 3) { if (!multiPair) o.op = 2; else o.d = 7; }
   if (multiPair && (o.op == 2 || o.op == 6)) o.op = 3, o.d = 7;
+  if (multiPair && o.op == 8) o.op = 5;
   return o;
 }
 
 template <typename G, bool HasIn, bool Undirected, bool Sorted, bool Concurrent>
 static void flavour(const char* name, vh::Rng& rng, bool thorough) {
-  const int NN = 4;
+  if (g_only != "all" && g_only != name) return;
   // ---- (1) sequential histories
   if (g_mode == "seq") {
-    int hist = thorough ? 3000 : 500;
+    int hist = (thorough ? 3000 : 500) / (g_loopPolicy ? 4 : 1);
     for (int h = 0; h < hist; ++h) {
+      // every third history: six nodes and a longer run (removed nodes leave dead entries behind in the sorted flavours)
+      const int NN = (h % 3 == 2) ? 6 : 4;
       Driver<G, HasIn, Undirected> d(NN);
-      g_selfloops = (h % 4 == 3);
+      g_selfloops = g_loopPolicy == 1;
       L->ev(64, ks("ev", "reset") + "," + ks("flavour", name) + "," + ks("mode", "seq") + "," + kv("threads", 1) + "," + kv("hasin", HasIn ? 1 : 0) +
                     "," + kv("undir", Undirected ? 1 : 0) + "," + kv("sortedg", Sorted ? 1 : 0) + "," + kv("selfloops", g_selfloops ? 1 : 0) + "," + kv("seed", h));
       // start with 2-3 nodes so that edge operations are applicable early
-      int len = 4 + (int)rng.below(thorough ? 14 : 10);
+      int len = NN == 6 ? 20 + (int)rng.below(30) : 4 + (int)rng.below(thorough ? 14 : 10);
       int step = 0;
-      for (int i = 0; i < 2 + (int)rng.below(2); ++i) { MOp o{0, i, 0, 0}; VL r = d.apply(o); d.track(o); L->ev(0, opJson(0, o, r)); L->ev(0, d.dump()); }
+      for (int i = 0; i < (NN == 6 ? 5 : 2) + (int)rng.below(2); ++i) { MOp o{0, i, 0, 0}; VL r = d.apply(o); d.track(o); L->ev(0, opJson(0, o, r)); L->ev(0, d.dump()); }
       for (int i = 0; i < len; ++i) {
         MOp o = randomOp(rng, NN, ++step);
         if (!d.applicable(o)) continue;
@@ -158,13 +166,13 @@ static void flavour(const char* name, vh::Rng& rng, bool thorough) {
   // ---- (2) mutation programs inside for_each: one mutator per iteration
   bool ctl = g_mode == "ctl";
   unsigned maxT = std::min(galois::substrate::getThreadPool().getMaxThreads(), ctl ? 3u : (thorough ? 8u : 6u));
-  int execs = ctl ? (thorough ? 200 : 40) : (thorough ? 60 : 12);
+  int execs = (ctl ? (thorough ? 200 : 40) : (thorough ? 60 : 12)) / (g_loopPolicy ? 4 : 1);
   for (int e = 0; e < execs; ++e) {
     uint64_t s = rng.next();
     unsigned threads = 1 + (unsigned)(s % maxT);
     const int CN = ctl ? 4 : 6;
     Driver<G, HasIn, Undirected> d(CN + 64);
-    g_selfloops = (e % 5 == 4);
+    g_selfloops = g_loopPolicy == 1;
     L->ev(64, ks("ev", "reset") + "," + ks("flavour", name) + "," + ks("mode", g_mode) + "," + kv("threads", threads) + "," + kv("hasin", HasIn ? 1 : 0) +
                   "," + kv("undir", Undirected ? 1 : 0) + "," + kv("sortedg", Sorted ? 1 : 0) + "," + kv("selfloops", g_selfloops ? 1 : 0) + "," + kv("seed", (long long)(s % 1000000007)));
     // serial prologue: the base nodes
@@ -222,6 +230,10 @@ int main(int argc, char** argv) {
   uint64_t seed = strtoull(argv[2], 0, 10);
   bool thorough = std::string(argv[3]) == "thorough";
   g_mode = argv[4];
+  // self loops hit a known defect that corrupts memory on some flavours (D13): they are confined to separate
+  // processes, one per flavour, so that nothing they break can leak into other executions
+  if (argc > 5) g_loopPolicy = std::string(argv[5]) == "loops" ? 1 : 0;
+  if (argc > 6) g_only = argv[6];
   galois::SharedMemSys G;
   signal(SIGSEGV, onCrash); signal(SIGABRT, onCrash); signal(SIGBUS, onCrash);
 #ifdef VERIF_FLAVOUR_C
@@ -235,7 +247,7 @@ int main(int argc, char** argv) {
     char name[32]; int a, b, dd;
     while (scanf("%31s %d %d %d", name, &a, &b, &dd) == 4) {
       MOp o{0, a, b, dd};
-      for (int k = 0; k < 8; ++k) if (std::string(OPN[k]) == name) o.op = k;
+      for (int k = 0; k < 9; ++k) if (std::string(OPN[k]) == name) o.op = k;
       VL r = d.apply(o); d.track(o);
       printf("%s %d %d %d -> %s\n", name, a, b, dd, vh::jarr(r).c_str());
     }
@@ -246,6 +258,8 @@ int main(int argc, char** argv) {
   flavour<gg::MorphGraph<int, int, true, true>, true, false, false, true>("inout", rng, thorough);
   flavour<gg::MorphGraph<int, int, false>, false, true, false, true>("undirected", rng, thorough);
   flavour<gg::MorphGraph<int, int, true, false, false, true>, false, false, true, true>("sorted", rng, thorough);
+  flavour<gg::MorphGraph<int, int, false, false, false, true>, false, true, true, true>("sorted-undirected", rng, thorough);
+  flavour<gg::MorphGraph<int, int, true, true, false, true>, true, false, true, true>("sorted-inout", rng, thorough);
   flavour<gg::MorphGraph<int, int, true, false, true>, false, false, false, false>("nolockable", rng, thorough);
   fprintf(stderr, "morph: %ld events\n", log.total);
   return 0;
